@@ -303,13 +303,72 @@ def in_parts(iv, parts, length=None):
     return any(s <= iv[0] and iv[1] <= e for s, e, _ in parts)
 
 
+def covered(parts, length):
+    """ the bases of [(start, end, strand)...] inside [0, length) as sorted disjoint maximal intervals """
+    ivs = sorted((max(0, s), min(length, e)) for s, e, _ in parts if min(length, e) > max(0, s))
+    out = []
+    for s, e in ivs:
+        if out and s <= out[-1][1]:
+            out[-1] = (out[-1][0], max(out[-1][1], e))
+        else:
+            out.append((s, e))
+    return out
+
+
+def expected_extent(core, nb, length, circular):
+    """ independent oracle for the neighbourhood: the bases within nb of the core on either side, clipped at the
+        ends of a linear record, wrapped round the origin of a circular one; None = core shape not covered here """
+    if len(core) == 1:
+        lo, hi = core[0][0], core[0][1]
+    elif circular and len(core) == 2 and core[0][1] == length and core[1][0] == 0 and core[1][1] <= core[0][0]:
+        lo, hi = core[0][0], length + core[1][1]
+    else:
+        return None
+    if not circular:
+        return [(max(0, lo - nb), min(length, hi + nb))]
+    if hi - lo + 2 * nb >= length:
+        return [(0, length)]
+    a, b = lo - nb, hi + nb          # b - a < length
+    shift = (a % length) - a
+    a, b = a + shift, b + shift      # 0 <= a < length
+    if b <= length:
+        return [(a, b)]
+    return covered([(a, length, 1), (0, b - length, 1)], length)
+
+
+def neighbourhood_verdict(meta, protos):
+    """ every reported protocluster covers exactly its core extended by the rule's neighbourhood (C03_neighbourhood_linear /
+        C03_neighbourhood_ring), evaluated on the implementation's output """
+    length, circular, rules = meta["length"], meta["circular"], meta["parsed"]
+    for ridx, core, sur in protos:
+        want = expected_extent(core, rules[ridx]["nb"], length, circular)
+        if want is None:
+            continue
+        got = covered(sur, length)
+        if got == want:
+            continue
+        # the recorded class C03-K6: the core passes the origin, its neighbourhood fills the record, and the midpoint /
+        # halfway split of the extent leaves one or two bases between the two parts uncovered
+        if circular and len(core) == 2 and want == [(0, length)] and len(sur) == 2 and len(got) == 2 \
+                and got[0][0] == 0 and got[1][1] == length and 1 <= got[1][0] - got[0][1] <= 2 \
+                and core[1][1] - 1 <= got[0][1] and got[1][0] <= core[0][0]:
+            return "neighbourhood_split_short", (f"rule r{ridx}: core {core} with neighbourhood {rules[ridx]['nb']} fills the record "
+                                                 f"but the extent {sur} leaves base(s) [{got[0][1]}:{got[1][0]}) out")
+        return "neighbourhood_wrong", (f"rule r{ridx}: extent {sur} of core {core} is not the core extended by the "
+                                       f"neighbourhood {rules[ridx]['nb']} on both sides (expected bases {want})")
+    return None
+
+
 RULE_FULL = ("full pipeline: linear and circular records (2:1 circular), 1-10 single-exon genes on both strands incl. nested/overlapping "
              "ones with gaps on {0, 1, cutoff-1, cutoff, cutoff+1, far} and, on circular records, a first/last gap across the origin on "
              "the same boundaries and (12 %) one origin-spanning two-part gene; 1-4 rules from the real parser with cutoffs drawn "
              "from two of {1, 2, 5, 20} kb, neighbourhoods {0, 1, 3, 10} kb, conditions from 12 templates (single, and, or, not, "
              "minimum, cds), EXTENDERS (35 %), SUPERIORS (35 %); 0-5 dynamic profile hits per gene; scenarios 'cache' (wide, narrow, "
              "wide cutoffs with a partner gene across the origin) and 'origin' bias a quarter of the circular cases; genes have "
-             "pairwise different (start, end) because the order of equal-key anchors follows set iteration order; "
+             "pairwise different (start, end) because the order of equal-key anchors follows set iteration order; six fixed "
+             "boundary records (last chain exactly one cutoff / one base less from an origin-spanning gene or from the first "
+             "chain through the origin) run first; every reported protocluster's location is also checked against an "
+             "independent neighbourhood oracle; "
              "non-trivial = at least one protocluster reported or an exception raised")
 
 
@@ -394,6 +453,22 @@ def run_full(chk, recorded):
             built[2]["witness_of" if status == "known" else "regression_of"] = entry["class"]
             for lst, item in zip((cases, impl_outs, metas), built):
                 lst.append(item)
+    # fixed boundary records (the Coq Example C03_origin_spanning_chain and its neighbours): an origin-spanning gene
+    # [19500:20000)+[0:300) and a last chain ending exactly one cutoff (2000) / one base less before it, with a chain in
+    # between: the first/last wrap test of find_protoclusters and merge_over_origin at the strict boundary
+    for last_start in (16500, 16501, 17000):
+        for spanning in (True, False):
+            genes = [("g0", [(1000, 1300, 1)]), ("g1", [(10000, 10300, 1)]), ("g2", [(last_start, last_start + 1000, -1)])]
+            if spanning:
+                genes.append(("g5", [(19500, 20000, 1), (0, 300, 1)]))
+            else:
+                genes[2] = ("g2", [(last_start + 2300, last_start + 2500, -1)])    # 999 / 1000 / 1499 before the origin + 1000
+            built = build_case(chk, 20000, True, "RULE r0 CATEGORY c CUTOFF 2 NEIGHBOURHOOD 1 CONDITIONS p0", genes,
+                               {name: {"p0"} for name, _ in genes}, "boundary")
+            if built:
+                chk.count("full_boundary")
+                for lst, item in zip((cases, impl_outs, metas), built):
+                    lst.append(item)
     for _ in range(total):
         circular = rng.random() < 0.67
         scenario = rng.choice(["plain", "plain", "cache", "origin"]) if circular else "plain"
@@ -537,6 +612,17 @@ def spec_verdict(meta, impl, anchors):
     verdict = superiors_verdict(meta, protos, anchors)
     if verdict:
         return verdict
+    chain = chain_verdict(meta, protos, anchors)
+    if chain:
+        return chain
+    return neighbourhood_verdict(meta, protos)
+
+
+def chain_verdict(meta, protos, anchors):
+    """ rules without extenders/superiors: the cores are the maximal cutoff-chains (ring distance on a circular record) """
+    length, circular, genes = meta["length"], meta["circular"], meta["genes"]
+    spanning = {i for i, (_, parts) in enumerate(genes) if len(parts) > 1}
+    rules = meta["parsed"]
     for ridx, rule in enumerate(rules):
         mine = [p for p in protos if p[0] == ridx]
         ivs = [arc_of(genes_by_id(genes)[g], length) for g in anchors.get(ridx, [])]
